@@ -21,8 +21,10 @@ Main results of this file
 * `provedInterval_sound` — the interval the driver hands out satisfies the theorem's hypotheses.
 * `applyUpdate_nonneg`, `applyUpdate_zero_iff`, `icLoop_invariant`, `icLoop_emptied_iff`, `mask_iff`,
   `others_positive`, `balance_genome_mask_iff` — exactly which bins carry NaN; the others are `> 0`.
-* `model_marg_eq_dense`, `model_final_step_bound`, `model_converged_bound` — the analytic bound restated
-  on the executable sweep.
+* `model_marg_eq_dense`, `model_final_step_bound`, `model_converged_bound`,
+  `model_converged_bound_cis(_data)` — the analytic bound restated on the executable sweep.
+* `balance_trans_mask_iff`, `balance_cis_mask_iff`, `balance_genome_others_positive` — NaN pattern and
+  positivity of the final output of `balance` in the other modes.
 -/
 namespace Cooler.C10
 open Cooler Cooler.IC
@@ -534,9 +536,7 @@ For non-negative data the zero pattern of the marginal depends only on the zero 
 emptied at the first sweep (`icLoop_emptied_iff`).  This gives `mask_iff` for every domain and each of
 the three functionals (`margVec_pattern`: genome-wide/cis with `cw = none`, trans-only with
 `cw = some cweights`), and, unfolded through `balance`, `balance_genome_mask_iff` for the genome-wide
-model run.  For cis-only and trans-only the same unfolding through the `foldl` over chromosomes
-(resp. the `cweights`) is not carried out; the correspondence compares `expectations` (the static rule)
-with the model run and with the implementation there. -/
+model run, `balance_trans_mask_iff` and `balance_cis_mask_iff` (end of this file) for the other two. -/
 
 theorem list_sum_eq_zero_iff (l : List Rat) (h : ∀ x ∈ l, 0 ≤ x) : l.sum = 0 ↔ ∀ x ∈ l, x = 0 := by
   induction l with
@@ -814,8 +814,8 @@ theorem balance_genome_mask_iff (n : Nat) (offs : List Nat) (ps : Pixels) (o : O
 `Props/C10IC.lean`; `applyUpdate_eq_upd` identifies the updates; `model_final_step_bound` and
 `model_converged_bound` are `final_step_bound` / `converged_rowsums_bound` restated on the executable
 definitions (`margVec`, `IC.mean`, `IC.variance`, `applyUpdate`, `rowsumAt`).  Stated for the
-genome-wide functional on data with an empty main diagonal (`ignore_diags ≥ 1`); per chromosome the
-same follows with `cis_bound`. -/
+genome-wide functional on data with an empty main diagonal (`ignore_diags ≥ 1`); the per-chromosome
+version is `model_converged_bound_cis` (end of this file). -/
 
 section dense
 variable {K : Type} [CommSemiring K]
@@ -1014,5 +1014,556 @@ theorem model_converged_bound (n : Nat) (l : List (WPx Rat)) (hl : ∀ p ∈ l, 
       exact List.getElem_mem _
     · simpa using hj0
   exact model_final_step_bound n l hl hd hnn b hbl hb μ δ hμ hδ0 hδ1 hclose k hk hk0
+
+/-! ## `mask_iff` through the whole model for trans-only and cis-only; the cis-only bound
+
+`balance_trans_mask_iff`, `balance_cis_mask_iff` unfold `balance` (the `cweights`, resp. the `foldl`
+over chromosomes — `cis_fold_mask`) as `balance_genome_mask_iff` does, and also give positivity of every
+other weight.  `model_converged_bound_cis` is the per-chromosome version of `model_converged_bound`
+on the executable sweep (slice `[lo, hi)` of the marginal, update of the slice), for block data;
+`cis_data_inBlock` / `cis_data_props` show that the data the cis-only branch sweeps is such a block, and
+`model_converged_bound_cis_data` states the bound on exactly that data. -/
+
+theorem pixelsOf_nonneg (ps : Pixels) (hps : ∀ p ∈ ps, 0 ≤ p.v) : ∀ p ∈ pixelsOf ps, 0 ≤ p.w := by
+  intro p hp
+  unfold pixelsOf at hp
+  obtain ⟨q, hq, rfl⟩ := List.mem_map.mp hp
+  show (0 : Rat) ≤ ((q.v : Int) : Rat)
+  exact_mod_cast hps q hq
+
+theorem initBias_length (n : Nat) (x0 : Option (List (Option Rat))) : (initBias n x0).length = n := by
+  unfold initBias; split <;> simp
+
+theorem maskedBias_length (n : Nat) (o : Opts) (m : Masks) : (maskedBias n o m).length = n := by
+  unfold maskedBias; rw [List.length_mapIdx, initBias_length]
+
+theorem maskedBias_nonneg (n : Nat) (o : Opts) (m : Masks) (hx0 : ∀ i, 0 ≤ (initBias n o.x0).getD i 0) :
+    ∀ j, 0 ≤ (maskedBias n o m).getD j 0 := by
+  intro j
+  unfold maskedBias
+  rw [List.getD_eq_getElem?_getD, List.getElem?_mapIdx]
+  have := hx0 j
+  rw [List.getD_eq_getElem?_getD] at this
+  cases hj : (initBias n o.x0)[j]? with
+  | none => simp
+  | some x =>
+    rw [hj] at this
+    simp only [Option.map_some, Option.getD_some]
+    split
+    · exact le_refl 0
+    · simpa using this
+
+theorem slice_full {β : Type} (v : List β) (n : Nat) (h : v.length = n) : slice v 0 n = v := by
+  unfold slice
+  rw [List.drop_zero, Nat.sub_zero, List.take_of_length_le (by rw [h])]
+
+theorem margVec_length (n : Nat) (l : List (WPx Rat)) (b : List Rat) : (margVec n l b).length = n := by
+  unfold margVec; simp
+
+/-- the chromosome weights are non-negative when no chromosome is longer than the genome -/
+theorem cweights_nonneg (n : Nat) (offs : List Nat) (hoffs : ∀ lh ∈ offs.zip offs.tail, lh.2 - lh.1 ≤ n) :
+    ∀ i, 0 ≤ (cweights n offs).getD i 0 := by
+  intro i
+  apply getD_nonneg_of_forall
+  intro x hx
+  unfold cweights at hx
+  obtain ⟨lh, hlh, hx⟩ := List.mem_flatMap.mp hx
+  have := List.eq_of_mem_replicate hx
+  rw [this]
+  apply div_nonneg (by norm_num)
+  have hle := hoffs lh hlh
+  by_cases hn : n = 0
+  · subst hn; simp
+  · have hnpos : (0 : Rat) < (n : Rat) := by exact_mod_cast Nat.pos_of_ne_zero hn
+    rw [sub_nonneg, div_le_one hnpos]
+    exact_mod_cast hle
+
+/-- **`mask_iff` for the trans-only model run**: bin `i` carries NaN iff a documented bin-level filter
+excludes it or the inter-chromosomal matrix has no non-zero (chromosome-weighted) marginal. -/
+theorem balance_trans_mask_iff (n : Nat) (offs : List Nat) (ps : Pixels) (o : Opts) (r : Result)
+    (hmode : o.mode = .trans) (hps : ∀ p ∈ ps, 0 ≤ p.v) (hx0 : ∀ i, 0 ≤ (initBias n o.x0).getD i 0)
+    (hoffs : ∀ lh ∈ offs.zip offs.tail, lh.2 - lh.1 ≤ n)
+    (h : balance n offs ps o = .ok r) (i : Nat) (hi : i < n) :
+    (r.bias[i]? = some none ↔
+      ((computeMasks marginalizeAt n offs (pixelsOf ps) o).excluded i = true ∨
+        ∀ x ∈ margVec n (sweepFilter o offs (pixelsOf ps))
+          (mulVec (maskedBias n o (computeMasks marginalizeAt n offs (pixelsOf ps) o)) (cweights n offs)), x = 0)) ∧
+    (∀ x, r.bias[i]? = some (some x) → 0 < x) := by
+  unfold balance at h
+  split at h
+  · exact absurd h (by simp)
+  · rename_i hk
+    split at h
+    · exact absurd h (by simp)
+    · simp only [hmode] at h
+      obtain ⟨k, hk'⟩ : ∃ k, o.maxIters = k + 1 := ⟨o.maxIters - 1, by omega⟩
+      have hlf := filters_nonneg o offs (pixelsOf ps) (pixelsOf_nonneg ps hps)
+      set masks := computeMasks marginalizeAt n offs (pixelsOf ps) o with hmasks
+      set b0 := maskedBias n o masks with hb0
+      have hb0len : b0.length = n := maskedBias_length n o masks
+      have hb0nn : ∀ j, 0 ≤ b0.getD j 0 := maskedBias_nonneg n o masks hx0
+      have hcw := cweights_nonneg n offs hoffs
+      have hmarg : ∀ b : List Rat, (∀ i, 0 ≤ b.getD i 0) →
+          ∀ x ∈ margVec n (sweepFilter o offs (pixelsOf ps)) (mulVec b (cweights n offs)), 0 ≤ x :=
+        fun b hb => margVec_nonneg n _ hlf _ (fun j => by rw [getD_mulVec]; exact mul_nonneg (hb j) (hcw j))
+      have hpat := margVec_pattern n (sweepFilter o offs (pixelsOf ps)) hlf (some (cweights n offs))
+        (fun c hc => by injection hc with hc; rw [← hc]; exact hcw) 0 n
+      simp only at hpat
+      injection h with h
+      rw [← h]
+      simp only
+      rw [hk']
+      constructor
+      · have hmain := mask_iff (fun b => margVec n (sweepFilter o offs (pixelsOf ps)) (mulVec b (cweights n offs)))
+          0 n o.tol hmarg hpat k b0 hb0nn (b0.map some) i ⟨Nat.zero_le _, hi⟩
+          (by rw [List.length_map, hb0len]; exact hi)
+        rw [hmain, maskedBias_zero_iff n o offs (pixelsOf ps) marginalizeAt i hi]
+        apply or_congr Iff.rfl
+        rw [slice_full _ n (margVec_length _ _ _)]
+      · intro x hx
+        exact others_positive (fun b => margVec n (sweepFilter o offs (pixelsOf ps)) (mulVec b (cweights n offs)))
+          0 n o.tol hmarg (k + 1) b0 hb0nn (b0.map some) i x ⟨Nat.zero_le _, hi⟩ hx
+
+/-- one step of the cis-only fold of `balance` (the body of its `step`) -/
+def cisStep (n : Nat) (lf : List (WPx Rat)) (tol : Rat) (k : Nat)
+    (st : List Rat × List (Option Rat) × List LoopOut) (lh : Nat × Nat) :
+    List Rat × List (Option Rat) × List LoopOut :=
+  let lc := lf.filter fun p => decide (lh.1 ≤ p.i ∧ p.i < lh.2)
+  let out := icLoop (margVec n lc) lh.1 lh.2 tol k st.1 0 []
+  (out.bias, markNaN lh.1 lh.2 out st.2.1, st.2.2 ++ [out])
+
+theorem markNaN_length (lo hi : Nat) (out : LoopOut) (acc : List (Option Rat)) :
+    (markNaN lo hi out acc).length = acc.length := by
+  unfold markNaN; rw [List.length_mapIdx]
+
+theorem markNaN_outside (lo hi : Nat) (out : LoopOut) (acc : List (Option Rat)) (i : Nat)
+    (h : ¬ (lo ≤ i ∧ i < hi)) : (markNaN lo hi out acc)[i]? = acc[i]? := by
+  unfold markNaN
+  rw [List.getElem?_mapIdx]
+  cases acc[i]? with
+  | none => rfl
+  | some x => simp [h]
+
+theorem cis_fold_untouched (n : Nat) (lf : List (WPx Rat)) (tol : Rat) (k : Nat) (i : Nat) :
+    ∀ (doms : List (Nat × Nat)) (st : List Rat × List (Option Rat) × List LoopOut),
+      (∀ lh ∈ doms, ¬ (lh.1 ≤ i ∧ i < lh.2)) →
+      (doms.foldl (cisStep n lf tol k) st).2.1[i]? = st.2.1[i]? := by
+  intro doms
+  induction doms with
+  | nil => intro st _; rfl
+  | cons d rest ih =>
+    intro st h
+    rw [List.foldl_cons, ih _ (fun lh hlh => h lh (List.mem_cons_of_mem d hlh))]
+    show (markNaN d.1 d.2 _ st.2.1)[i]? = _
+    exact markNaN_outside _ _ _ _ _ (h d List.mem_cons_self)
+
+theorem filter_nonneg (l : List (WPx Rat)) (hl : ∀ p ∈ l, 0 ≤ p.w) (f : WPx Rat → Bool) :
+    ∀ p ∈ l.filter f, 0 ≤ p.w := fun p hp => hl p (List.mem_filter.mp hp).1
+
+/-- the fold over chromosomes: the bin `i` of chromosome `lh` ends up NaN iff it was masked before the
+sweeps or the chromosome has no non-zero marginal; otherwise its weight is positive -/
+theorem cis_fold_mask (n : Nat) (lf : List (WPx Rat)) (hlf : ∀ p ∈ lf, 0 ≤ p.w) (tol : Rat) (k : Nat)
+    (b0 : List Rat) (i : Nat) :
+    ∀ (doms : List (Nat × Nat)) (st : List Rat × List (Option Rat) × List LoopOut),
+      doms.Pairwise (fun a b => a.2 ≤ b.1) →
+      (∀ j, 0 ≤ st.1.getD j 0) → (∀ j, st.1.getD j 0 = 0 ↔ b0.getD j 0 = 0) → (∀ j, 0 ≤ b0.getD j 0) →
+      ∀ lh ∈ doms, (lh.1 ≤ i ∧ i < lh.2) → i < st.2.1.length →
+      (((doms.foldl (cisStep n lf tol (k + 1)) st).2.1[i]? = some none ↔
+        (b0.getD i 0 = 0 ∨ ∀ x ∈ slice (margVec n (lf.filter fun p => decide (lh.1 ≤ p.i ∧ p.i < lh.2)) b0) lh.1 lh.2,
+          x = 0)) ∧
+       (∀ x, (doms.foldl (cisStep n lf tol (k + 1)) st).2.1[i]? = some (some x) → 0 < x)) := by
+  intro doms
+  induction doms with
+  | nil => intro st _ _ _ _ lh hlh; exact absurd hlh (by simp)
+  | cons d rest ih =>
+    intro st hpw hnn hz hb0 lh hlh hin hlen
+    rw [List.foldl_cons]
+    obtain ⟨hd, hrest⟩ := List.pairwise_cons.mp hpw
+    have hmargC : ∀ b : List Rat, (∀ j, 0 ≤ b.getD j 0) →
+        ∀ x ∈ margVec n (lf.filter fun p => decide (d.1 ≤ p.i ∧ p.i < d.2)) b, 0 ≤ x :=
+      fun b hb => margVec_nonneg n _ (filter_nonneg lf hlf _) b hb
+    have hinv := icLoop_invariant (margVec n (lf.filter fun p => decide (d.1 ≤ p.i ∧ p.i < d.2))) d.1 d.2 tol hmargC
+      (k + 1) st.1 0 [] hnn
+    rcases List.mem_cons.mp hlh with heq | hmem
+    · subst heq
+      have hun : ∀ lh' ∈ rest, ¬ (lh'.1 ≤ i ∧ i < lh'.2) := by
+        intro lh' h' hc
+        have := hd lh' h'
+        omega
+      rw [cis_fold_untouched n lf tol (k + 1) i rest _ hun]
+      have hpat := margVec_pattern n (lf.filter fun p => decide (lh.1 ≤ p.i ∧ p.i < lh.2)) (filter_nonneg lf hlf _)
+        none (fun c hc => by simp at hc) lh.1 lh.2
+      simp only at hpat
+      constructor
+      · show (markNaN lh.1 lh.2 (icLoop (margVec n (lf.filter fun p => decide (lh.1 ≤ p.i ∧ p.i < lh.2))) lh.1 lh.2 tol
+            (k + 1) st.1 0 []) st.2.1)[i]? = some none ↔ _
+        rw [mask_iff _ lh.1 lh.2 tol hmargC hpat k st.1 hnn st.2.1 i hin hlen, hz i, hpat b0 st.1 hb0 hnn hz]
+      · intro x hx
+        exact others_positive _ lh.1 lh.2 tol hmargC (k + 1) st.1 hnn st.2.1 i x hin hx
+    · apply ih (cisStep n lf tol (k + 1) st d) hrest
+      · exact hinv.1
+      · intro j; exact (hinv.2 j).trans (hz j)
+      · exact hb0
+      · exact hmem
+      · exact hin
+      · show i < (markNaN d.1 d.2 _ st.2.1).length
+        rw [markNaN_length]; exact hlen
+
+/-- consecutive pairs of a sorted offset list are ordered, disjoint intervals -/
+theorem zip_tail_pairwise : ∀ (l : List Nat), l.Pairwise (· ≤ ·) →
+    (l.zip l.tail).Pairwise (fun a b => a.2 ≤ b.1)
+  | [], _ => by simp
+  | [_], _ => by simp
+  | x :: y :: t, h => by
+    have hyt : (y :: t).Pairwise (· ≤ ·) := (List.pairwise_cons.mp h).2
+    show ((x, y) :: (y :: t).zip t).Pairwise _
+    rw [List.pairwise_cons]
+    refine ⟨?_, zip_tail_pairwise (y :: t) hyt⟩
+    intro b hb
+    have hb1 : b.1 ∈ y :: t := (List.of_mem_zip hb).1
+    rcases List.mem_cons.mp hb1 with e | e
+    · rw [e]
+    · exact (List.pairwise_cons.mp hyt).1 _ e
+
+/-- **`mask_iff` for the cis-only model run**: for a bin `i` of the chromosome `[lo, hi)`, the final
+weight is NaN iff a documented bin-level filter excludes the bin or the chromosome has no non-zero
+intra-chromosomal marginal; every other weight is positive. -/
+theorem balance_cis_mask_iff (n : Nat) (offs : List Nat) (ps : Pixels) (o : Opts) (r : Result)
+    (hmode : o.mode = .cis) (hps : ∀ p ∈ ps, 0 ≤ p.v) (hx0 : ∀ i, 0 ≤ (initBias n o.x0).getD i 0)
+    (hsorted : offs.Pairwise (· ≤ ·))
+    (h : balance n offs ps o = .ok r) (lh : Nat × Nat) (hlh : lh ∈ offs.zip offs.tail)
+    (i : Nat) (hin : lh.1 ≤ i ∧ i < lh.2) (hi : i < n) :
+    (r.bias[i]? = some none ↔
+      ((computeMasks marginalizeAt n offs (pixelsOf ps) o).excluded i = true ∨
+        ∀ x ∈ slice (margVec n ((sweepFilter o offs (pixelsOf ps)).filter fun p => decide (lh.1 ≤ p.i ∧ p.i < lh.2))
+          (maskedBias n o (computeMasks marginalizeAt n offs (pixelsOf ps) o))) lh.1 lh.2, x = 0)) ∧
+    (∀ x, r.bias[i]? = some (some x) → 0 < x) := by
+  unfold balance at h
+  split at h
+  · exact absurd h (by simp)
+  · rename_i hk
+    simp only [hmode] at h
+    obtain ⟨k, hk'⟩ : ∃ k, o.maxIters = k + 1 := ⟨o.maxIters - 1, by omega⟩
+    have hlf := filters_nonneg o offs (pixelsOf ps) (pixelsOf_nonneg ps hps)
+    set masks := computeMasks marginalizeAt n offs (pixelsOf ps) o with hmasks
+    set b0 := maskedBias n o masks with hb0
+    have hb0len : b0.length = n := maskedBias_length n o masks
+    have hb0nn : ∀ j, 0 ≤ b0.getD j 0 := maskedBias_nonneg n o masks hx0
+    injection h with h
+    rw [← h]
+    simp only
+    rw [hk']
+    have hmain := cis_fold_mask n (sweepFilter o offs (pixelsOf ps)) hlf o.tol k b0 i (offs.zip offs.tail)
+      (b0, b0.map some, []) (zip_tail_pairwise offs hsorted) hb0nn (fun j => Iff.rfl) hb0nn lh hlh hin
+      (by show i < (b0.map some).length; rw [List.length_map, hb0len]; exact hi)
+    rw [← maskedBias_zero_iff n o offs (pixelsOf ps) marginalizeAt i hi]
+    exact hmain
+
+/-- pixel data of one chromosome block `[lo, hi)`: every non-zero pixel has both ends inside -/
+def InBlock (lc : List (WPx Rat)) (lo hi : Nat) : Prop :=
+  ∀ p ∈ lc, p.w ≠ 0 → lo ≤ p.i ∧ p.i < hi ∧ lo ≤ p.j ∧ p.j < hi
+
+theorem marg_zero_outside (lc : List (WPx Rat)) (lo hi : Nat) (hblk : InBlock lc lo hi) (w : Nat → Rat)
+    (k : Nat) (hk : k < lo ∨ hi ≤ k) : marginalizeAt (timesOuter w lc) k = 0 := by
+  have hb : ∀ sel : WPx Rat → Nat, (∀ p : WPx Rat, sel p = p.i ∨ sel p = p.j) →
+      (∀ q : WPx Rat, ∀ v : Rat, sel { q with w := v } = sel q) →
+      bincountAt sel (timesOuter w lc) k = 0 := by
+    intro sel hsel hsel'
+    unfold bincountAt
+    apply List.sum_eq_zero
+    intro y hy
+    obtain ⟨p, hp, rfl⟩ := List.mem_map.mp hy
+    unfold timesOuter at hp
+    obtain ⟨q, hq, rfl⟩ := List.mem_map.mp hp
+    rw [hsel']
+    split
+    · rename_i hs
+      by_cases hw : q.w = 0
+      · simp [hw]
+      · have := hblk q hq hw
+        rcases hsel q with e | e <;> (rw [e] at hs; omega)
+    · rfl
+  unfold marginalizeAt
+  rw [hb (·.i) (fun _ => Or.inl rfl) (fun _ _ => rfl), hb (·.j) (fun _ => Or.inr rfl) (fun _ _ => rfl), add_zero]
+
+theorem slice_length {β : Type} (v : List β) (lo hi : Nat) (hhi : hi ≤ v.length) :
+    (slice v lo hi).length = hi - lo := by
+  unfold slice
+  rw [List.length_take, List.length_drop]
+  omega
+
+theorem slice_getElem? {β : Type} (v : List β) (lo hi k : Nat) (hk : k < hi - lo) :
+    (slice v lo hi)[k]? = v[lo + k]? := by
+  unfold slice
+  rw [List.getElem?_take, if_pos hk, List.getElem?_drop]
+
+/-- if a vector vanishes outside `[lo, hi)`, its non-zero entries are those of the slice -/
+theorem filter_slice_eq (v : List Rat) (lo hi : Nat) (hlh : lo ≤ hi)
+    (hz : ∀ k, (k < lo ∨ hi ≤ k) → v.getD k 0 = 0) :
+    (slice v lo hi).filter (fun x => decide (x ≠ 0)) = v.filter (fun x => decide (x ≠ 0)) := by
+  have hsplit : v = v.take lo ++ (slice v lo hi ++ v.drop hi) := by
+    unfold slice
+    have h1 : (v.drop lo).drop (hi - lo) = v.drop hi := by
+      rw [List.drop_drop]; congr 1; omega
+    rw [← h1, List.take_append_drop, List.take_append_drop]
+  have hnil : ∀ l : List Rat, (∀ x ∈ l, x = 0) → l.filter (fun x => decide (x ≠ 0)) = [] := by
+    intro l hl
+    rw [List.filter_eq_nil_iff]
+    intro x hx
+    simp [hl x hx]
+  have h1 : ∀ x ∈ v.take lo, x = 0 := by
+    intro x hx
+    obtain ⟨k, hk, rfl⟩ := List.mem_iff_getElem.mp hx
+    rw [List.length_take] at hk
+    rw [List.getElem_take]
+    have := hz k (Or.inl (by omega))
+    rw [List.getD_eq_getElem?_getD, List.getElem?_eq_getElem (by omega)] at this
+    simpa using this
+  have h2 : ∀ x ∈ v.drop hi, x = 0 := by
+    intro x hx
+    obtain ⟨k, hk, rfl⟩ := List.mem_iff_getElem.mp hx
+    rw [List.length_drop] at hk
+    rw [List.getElem_drop]
+    have := hz (hi + k) (Or.inr (by omega))
+    rw [List.getD_eq_getElem?_getD, List.getElem?_eq_getElem (by omega)] at this
+    simpa using this
+  conv_rhs => rw [hsplit]
+  rw [List.filter_append, List.filter_append, hnil _ h1, hnil _ h2, List.nil_append, List.append_nil]
+
+/-- updating the slice `[lo, hi)` with the sliced marginal is updating everything with the full
+marginal, when the marginal vanishes outside the slice (divisor 1 there) -/
+theorem applyUpdate_slice_eq (b v : List Rat) (n lo hi : Nat) (hb : b.length = n) (hv : v.length = n)
+    (hlh : lo ≤ hi) (hhi : hi ≤ n) (hz : ∀ k, (k < lo ∨ hi ≤ k) → v.getD k 0 = 0) (μ : Rat) (i : Nat) :
+    (applyUpdate b lo (slice v lo hi) μ).getD i 0 = (applyUpdate b 0 v μ).getD i 0 := by
+  unfold applyUpdate
+  rw [List.getD_eq_getElem?_getD, List.getD_eq_getElem?_getD, List.getElem?_mapIdx, List.getElem?_mapIdx]
+  cases hbi : b[i]? with
+  | none => rfl
+  | some x =>
+    have hin : i < n := by
+      rw [← hb]
+      by_contra hc
+      rw [List.getElem?_eq_none (by omega)] at hbi
+      exact absurd hbi (by simp)
+    simp only [Option.map_some, Option.getD_some, slice_length v lo hi (by rw [hv]; exact hhi), hv,
+      Nat.zero_le, true_and, Nat.zero_add, hin, if_true, Nat.sub_zero]
+    by_cases hc : lo ≤ i ∧ i < lo + (hi - lo)
+    · rw [if_pos hc]
+      have : (slice v lo hi).getD (i - lo) 0 = v.getD i 0 := by
+        rw [List.getD_eq_getElem?_getD, List.getD_eq_getElem?_getD, slice_getElem? v lo hi (i - lo) (by omega)]
+        congr 2; omega
+      rw [this]
+    · rw [if_neg hc]
+      have : v.getD i 0 = 0 := hz i (by omega)
+      rw [this]
+      simp [divisor]
+
+/-- **A cis-only sweep of the model that reports `var < tol` leaves flat row sums on the chromosome**
+(the per-chromosome body of `balance` in cis-only mode, on data `lc` whose non-zero pixels lie inside
+the chromosome block `[lo, hi)` and whose main diagonal is empty).  With `m` the slice `[lo, hi)` of
+the model's marginal for weights `b`, `μ = mean` (the chromosome's `scale`) and `var = variance` of its
+`N` non-zero entries, `var < tol` and any `0 ≤ δ < 1` with `tol·N ≤ δ²μ²`: after the model's update of
+the slice, every bin of the chromosome that had a non-zero marginal has intra-chromosomal row sum in
+`[μ/(1+δ), μ/(1−δ)]`. -/
+theorem model_converged_bound_cis (n : Nat) (lc : List (WPx Rat)) (hl : ∀ p ∈ lc, p.i < n ∧ p.j < n)
+    (hd : ∀ p ∈ lc, p.i = p.j → p.w = 0) (hnn : ∀ p ∈ lc, 0 ≤ p.w)
+    (lo hi : Nat) (hlh : lo ≤ hi) (hhi : hi ≤ n) (hblk : InBlock lc lo hi)
+    (b : List Rat) (hbl : b.length = n) (hb : ∀ i, 0 ≤ b.getD i 0) (tol δ : Rat)
+    (hne : (slice (margVec n lc b) lo hi).filter (fun x => decide (x ≠ 0)) ≠ [])
+    (hvar : IC.variance ((slice (margVec n lc b) lo hi).filter (fun x => decide (x ≠ 0))) < tol)
+    (hδ0 : 0 ≤ δ) (hδ1 : δ < 1)
+    (hδ : tol * (((slice (margVec n lc b) lo hi).filter (fun x => decide (x ≠ 0))).length : Rat)
+      ≤ δ ^ 2 * (IC.mean ((slice (margVec n lc b) lo hi).filter (fun x => decide (x ≠ 0)))) ^ 2)
+    (k : Nat) (hk : k < n) (hk0 : (margVec n lc b).getD k 0 ≠ 0) :
+    let μ := IC.mean ((slice (margVec n lc b) lo hi).filter (fun x => decide (x ≠ 0)))
+    μ / (1 + δ) ≤ rowsumAt n (timesOuter
+        (fun i => (applyUpdate b lo (slice (margVec n lc b) lo hi) μ).getD i 0) lc) k ∧
+    rowsumAt n (timesOuter
+        (fun i => (applyUpdate b lo (slice (margVec n lc b) lo hi) μ).getD i 0) lc) k ≤ μ / (1 - δ) := by
+  intro μ
+  have hz : ∀ j, (j < lo ∨ hi ≤ j) → (margVec n lc b).getD j 0 = 0 := by
+    intro j hj
+    by_cases hjn : j < n
+    · rw [getD_margVec n lc b j hjn]; exact marg_zero_outside lc lo hi hblk _ j hj
+    · rw [List.getD_eq_getElem?_getD, List.getElem?_eq_none (by rw [margVec_length]; omega)]; rfl
+  have hf := filter_slice_eq (margVec n lc b) lo hi hlh hz
+  have hfun : (fun i => (applyUpdate b lo (slice (margVec n lc b) lo hi) μ).getD i 0)
+      = fun i => (applyUpdate b 0 (margVec n lc b) μ).getD i 0 := by
+    funext i
+    exact applyUpdate_slice_eq b _ n lo hi hbl (margVec_length n lc b) hlh hhi hz μ i
+  rw [hfun]
+  have hμ : μ = IC.mean ((margVec n lc b).filter (fun x => decide (x ≠ 0))) := by
+    show IC.mean _ = _; rw [hf]
+  rw [hμ]
+  rw [hf] at hne hvar hδ
+  exact model_converged_bound n lc hl hd hnn b hbl hb tol δ hne hvar hδ0 hδ1 hδ k hk hk0
+
+/-- weights outside the block do not enter the block's row sums: later chromosomes' sweeps do not
+disturb the flatness reached on this one -/
+theorem timesOuter_block_congr (lc : List (WPx Rat)) (lo hi : Nat) (hblk : InBlock lc lo hi) (w w' : Nat → Rat)
+    (hww : ∀ j, lo ≤ j → j < hi → w' j = w j) : timesOuter w' lc = timesOuter w lc := by
+  unfold timesOuter
+  apply List.map_congr_left
+  intro p hp
+  by_cases hw : p.w = 0
+  · simp [hw]
+  · obtain ⟨h1, h2, h3, h4⟩ := hblk p hp hw
+    rw [hww p.i h1 h2, hww p.j h3 h4]
+
+theorem countP_lt_of_witness {β : Type} (p q : β → Bool) :
+    ∀ (l : List β), (∀ x ∈ l, p x = true → q x = true) → (∃ x ∈ l, p x = false ∧ q x = true) →
+      l.countP p < l.countP q
+  | [], _, h => by obtain ⟨x, hx, _⟩ := h; exact absurd hx (by simp)
+  | a :: t, himp, hw => by
+    have hle : t.countP p ≤ t.countP q :=
+      List.countP_mono_left (fun x hx => himp x (List.mem_cons_of_mem a hx))
+    rw [List.countP_cons, List.countP_cons]
+    obtain ⟨x, hx, hpx, hqx⟩ := hw
+    rcases List.mem_cons.mp hx with e | e
+    · subst e
+      simp only [hpx, hqx, Bool.false_eq_true, if_false, if_true]
+      omega
+    · have := countP_lt_of_witness p q t (fun y hy => himp y (List.mem_cons_of_mem a hy)) ⟨x, e, hpx, hqx⟩
+      by_cases hpa : p a = true
+      · have hqa := himp a List.mem_cons_self hpa
+        simp only [hpa, hqa, if_true]; omega
+      · by_cases hqa : q a = true
+        · simp only [hpa, hqa, Bool.false_eq_true, if_false, if_true]; omega
+        · simp only [hpa, hqa, Bool.false_eq_true, if_false]; omega
+
+/-- an offset `c` of the table separates chromosomes: bins on different sides have different `chromOf` -/
+theorem chromOf_lt_of_sep (offs : List Nat) (c a b : Nat) (hc : c ∈ offs.tail) (ha : a < c) (hb : c ≤ b) :
+    chromOf offs a < chromOf offs b := by
+  unfold chromOf
+  apply countP_lt_of_witness
+  · intro x _ hx
+    simp only [decide_eq_true_eq] at hx ⊢
+    omega
+  · exact ⟨c, hc, by simp; omega, by simpa using hb⟩
+
+/-- bins with the same `chromOf` as a bin of `[lo, hi)` lie in `[lo, hi)`, for a consecutive pair
+`(lo, hi)` of an offset table that starts at 0 -/
+theorem same_chrom_in_block (offs : List Nat) (h0 : offs.head? = some 0) (lh : Nat × Nat)
+    (hlh : lh ∈ offs.zip offs.tail) (a b : Nat) (ha : lh.1 ≤ a ∧ a < lh.2)
+    (hab : chromOf offs a = chromOf offs b) : lh.1 ≤ b ∧ b < lh.2 := by
+  obtain ⟨hlo, hhi⟩ := List.of_mem_zip hlh
+  constructor
+  · by_contra hc
+    have hlt : b < lh.1 := by omega
+    cases offs with
+    | nil => simp at hlo
+    | cons x t =>
+      simp only [List.head?_cons, Option.some.injEq] at h0
+      rcases List.mem_cons.mp hlo with e | e
+      · omega
+      · have := chromOf_lt_of_sep (x :: t) lh.1 b a e hlt ha.1
+        omega
+  · by_contra hc
+    have := chromOf_lt_of_sep offs lh.2 a b hhi ha.2 (by omega)
+    omega
+
+theorem zeroTrans_chrom (offs : List Nat) (l : List (WPx Rat)) :
+    ∀ p ∈ zeroTrans offs l, p.w ≠ 0 → chromOf offs p.i = chromOf offs p.j := by
+  intro p hp hw
+  unfold zeroTrans at hp
+  obtain ⟨q, _, rfl⟩ := List.mem_map.mp hp
+  by_cases h : chromOf offs q.i ≠ chromOf offs q.j
+  · simp [h] at hw
+  · simp only [h, if_false]
+    exact not_not.mp h
+
+theorem zeroDiags_mem (d : Nat) (l : List (WPx Rat)) : ∀ p ∈ zeroDiags d l, p.w ≠ 0 → p ∈ l := by
+  intro p hp hw
+  unfold zeroDiags at hp
+  obtain ⟨q, hq, rfl⟩ := List.mem_map.mp hp
+  by_cases h : absDiff q.i q.j < d
+  · simp [h] at hw
+  · simp only [h, if_false]; exact hq
+
+/-- **The data the model sweeps for one chromosome in cis-only mode is a block**: every non-zero
+pixel of `(sweepFilter …).filter (lo ≤ bin1 < hi)` has both ends in `[lo, hi)`. -/
+theorem cis_data_inBlock (o : Opts) (hmode : o.mode = .cis) (offs : List Nat) (h0 : offs.head? = some 0)
+    (l : List (WPx Rat)) (lh : Nat × Nat) (hlh : lh ∈ offs.zip offs.tail) :
+    InBlock ((sweepFilter o offs l).filter fun p => decide (lh.1 ≤ p.i ∧ p.i < lh.2)) lh.1 lh.2 := by
+  intro p hp hw
+  obtain ⟨hp1, hp2⟩ := List.mem_filter.mp hp
+  have hin : lh.1 ≤ p.i ∧ p.i < lh.2 := by simpa using hp2
+  have hchrom : chromOf offs p.i = chromOf offs p.j := by
+    unfold sweepFilter baseFilter at hp1
+    simp only [hmode, if_true] at hp1
+    have hnt : ¬ (Mode.cis = Mode.trans) := by decide
+    simp only [hnt, if_false] at hp1
+    split at hp1
+    · exact zeroTrans_chrom offs l p (zeroDiags_mem _ _ p hp1 hw) hw
+    · exact zeroTrans_chrom offs l p hp1 hw
+  have := same_chrom_in_block offs h0 lh hlh p.i p.j hin hchrom
+  exact ⟨hin.1, hin.2, this.1, this.2⟩
+
+/-- the data of one chromosome's cis-only sweep satisfies every hypothesis of
+`model_converged_bound_cis` when `ignore_diags ≥ 1` -/
+theorem cis_data_props (o : Opts) (hmode : o.mode = .cis) (hd1 : 1 ≤ o.ignoreDiags) (offs : List Nat)
+    (h0 : offs.head? = some 0) (n : Nat) (l : List (WPx Rat)) (hl : ∀ p ∈ l, p.i < n ∧ p.j < n)
+    (hnn : ∀ p ∈ l, 0 ≤ p.w) (lh : Nat × Nat) (hlh : lh ∈ offs.zip offs.tail) :
+    let lc := (sweepFilter o offs l).filter fun p => decide (lh.1 ≤ p.i ∧ p.i < lh.2)
+    (∀ p ∈ lc, p.i < n ∧ p.j < n) ∧ (∀ p ∈ lc, p.i = p.j → p.w = 0) ∧ (∀ p ∈ lc, 0 ≤ p.w) ∧
+      InBlock lc lh.1 lh.2 := by
+  intro lc
+  have hsw : sweepFilter o offs l = baseFilter o offs l := by
+    unfold sweepFilter; rw [hmode]; simp
+  have hbp := baseFilter_props o hd1 offs n l hl
+  refine ⟨?_, ?_, ?_, cis_data_inBlock o hmode offs h0 l lh hlh⟩
+  · intro p hp
+    have := (List.mem_filter.mp hp).1
+    rw [hsw] at this
+    exact hbp.1 p this
+  · intro p hp
+    have := (List.mem_filter.mp hp).1
+    rw [hsw] at this
+    exact hbp.2 p this
+  · exact filter_nonneg _ (filters_nonneg o offs l hnn) _
+
+/-- **cis-only, on the model's own data**: the statement of `model_converged_bound_cis` for the pixel
+list the cis-only branch of `balance` sweeps for the chromosome `lh = (lo, hi)` (options with
+`ignore_diags ≥ 1`, offset table starting at 0, chromosome inside `[0, n)`). -/
+theorem model_converged_bound_cis_data (o : Opts) (hmode : o.mode = .cis) (hd1 : 1 ≤ o.ignoreDiags)
+    (offs : List Nat) (h0 : offs.head? = some 0) (n : Nat) (ps : Pixels) (hps : ∀ p ∈ ps, 0 ≤ p.v)
+    (hids : ∀ p ∈ ps, p.i < n ∧ p.j < n) (lh : Nat × Nat) (hlh : lh ∈ offs.zip offs.tail)
+    (hlohi : lh.1 ≤ lh.2) (hhi : lh.2 ≤ n)
+    (b : List Rat) (hbl : b.length = n) (hb : ∀ i, 0 ≤ b.getD i 0) (tol δ : Rat) :
+    let lc := (sweepFilter o offs (pixelsOf ps)).filter fun p => decide (lh.1 ≤ p.i ∧ p.i < lh.2)
+    let m := slice (margVec n lc b) lh.1 lh.2
+    let nzm := m.filter (fun x => decide (x ≠ 0))
+    let μ := IC.mean nzm
+    nzm ≠ [] → IC.variance nzm < tol → 0 ≤ δ → δ < 1 → tol * (nzm.length : Rat) ≤ δ ^ 2 * μ ^ 2 →
+    ∀ k, k < n → (margVec n lc b).getD k 0 ≠ 0 →
+      μ / (1 + δ) ≤ rowsumAt n (timesOuter (fun i => (applyUpdate b lh.1 m μ).getD i 0) lc) k ∧
+      rowsumAt n (timesOuter (fun i => (applyUpdate b lh.1 m μ).getD i 0) lc) k ≤ μ / (1 - δ) := by
+  intro lc m nzm μ hne hvar hδ0 hδ1 hδ k hk hk0
+  have hids' : ∀ p ∈ pixelsOf ps, p.i < n ∧ p.j < n := by
+    intro p hp
+    unfold pixelsOf at hp
+    obtain ⟨q, hq, rfl⟩ := List.mem_map.mp hp
+    exact hids q hq
+  obtain ⟨h1, h2, h3, h4⟩ := cis_data_props o hmode hd1 offs h0 n (pixelsOf ps) hids'
+    (pixelsOf_nonneg ps hps) lh hlh
+  exact model_converged_bound_cis n lc h1 h2 h3 lh.1 lh.2 hlohi hhi h4 b hbl hb tol δ hne hvar hδ0 hδ1 hδ k hk hk0
+
+/-- companion of `balance_genome_mask_iff`: every weight of the genome-wide model run that is not NaN
+is positive -/
+theorem balance_genome_others_positive (n : Nat) (offs : List Nat) (ps : Pixels) (o : Opts) (r : Result)
+    (hmode : o.mode = .genome) (hps : ∀ p ∈ ps, 0 ≤ p.v) (hx0 : ∀ i, 0 ≤ (initBias n o.x0).getD i 0)
+    (h : balance n offs ps o = .ok r) (i : Nat) (hi : i < n) (x : Rat) (hx : r.bias[i]? = some (some x)) :
+    0 < x := by
+  unfold balance at h
+  split at h
+  · exact absurd h (by simp)
+  · simp only [hmode] at h
+    have hlf := filters_nonneg o offs (pixelsOf ps) (pixelsOf_nonneg ps hps)
+    have hmarg : ∀ b : List Rat, (∀ i, 0 ≤ b.getD i 0) → ∀ x ∈ margVec n (sweepFilter o offs (pixelsOf ps)) b, 0 ≤ x :=
+      fun b hb => margVec_nonneg n _ hlf b hb
+    injection h with h
+    rw [← h] at hx
+    exact others_positive _ 0 n o.tol hmarg o.maxIters _
+      (maskedBias_nonneg n o _ hx0) _ i x ⟨Nat.zero_le _, hi⟩ hx
 
 end Cooler.C10
